@@ -57,7 +57,10 @@ def py_block(stmts) -> list:
 		elif isinstance(s, ast.For) and not s.orelse and isinstance(s.target, ast.Name) and isinstance(s.iter, ast.Call) and isinstance(s.iter.func, ast.Name) and s.iter.func.id == 'range':
 			a = [py_expr(x) for x in s.iter.args]
 			start, stop, step = (('int', 0), a[0], ('int', 1)) if len(a) == 1 else (a[0], a[1], ('int', 1)) if len(a) == 2 else (a[0], a[1], a[2])
-			out.append(('for', s.target.id, start, ('bin', '<', ('var', s.target.id), stop), ('aug', '+', s.target.id, step), py_block(s.body)))
+			# Python: ascending ranges run while i < stop, descending ones while i > stop (a zero step raises: excluded by premise)
+			var = ('var', s.target.id)
+			cond = ('bin', '<', var, stop) if len(a) < 3 else ('rangecond', var, stop, step)
+			out.append(('for', s.target.id, start, cond, ('aug', '+', s.target.id, step), py_block(s.body)))
 		elif isinstance(s, ast.Return):
 			out.append(('return', py_expr(s.value) if s.value is not None else None))
 		elif isinstance(s, ast.Break):
